@@ -108,6 +108,12 @@ func (w *WS) Close() {
 
 // BuildTool builds the gontainer binary from the copied tree. tags always contain "verif".
 func (w *WS) BuildTool(out string, ldflags string, goCmd string, race bool) error {
+	return w.BuildToolTarget(out, ldflags, goCmd, race, ".")
+}
+
+// BuildToolTarget builds the tool from the given target: "." (the package, as `go install` and goreleaser do) or
+// "main.go" (the file list the Makefile's build target passes).
+func (w *WS) BuildToolTarget(out string, ldflags string, goCmd string, race bool, target string) error {
 	if goCmd == "" {
 		goCmd = "go"
 	}
@@ -120,7 +126,7 @@ func (w *WS) BuildTool(out string, ldflags string, goCmd string, race bool) erro
 		args = append(args, "-race")
 		env = w.GoEnvCgo()
 	}
-	args = append(args, ".")
+	args = append(args, target)
 	cmd := exec.Command(goCmd, args...)
 	cmd.Dir = w.Repo
 	cmd.Env = env
